@@ -226,6 +226,19 @@ func sections(full bool) map[string][]variant {
 			}
 		}
 	}
+	// numbers are decimal however they are padded: "010" is ten, "060,012" is note 60 with offset 12
+	for _, sp3 := range [][3]string{{"007", "", ""}, {"010", "", ""}, {"0127", "", ""}, {"060", "012", "12"}, {"0100", "08", "8"}, {"64", "015", "15"}, {"00", "00", "0"}} {
+		sp3 := sp3
+		keyVars = append(keyVars, variant{fmt.Sprintf("key padded number note=%s off=%s", sp3[0], sp3[1]), func(d *Desc) {
+			k := kn("KEY_Z", sp3[0], nil)
+			if sp3[1] != "" {
+				var o int
+				fmt.Sscanf(sp3[2], "%d", &o)
+				k.Offset, k.OffStr = ip(o), sp3[1]
+			}
+			d.Mappings[0].Keys[0].Keys = append(d.Mappings[0].Keys[0].Keys, k)
+		}})
+	}
 	s["keys"] = keyVars
 	s["axes"] = axisVariants(full)
 	s["deadzones"] = []variant{
@@ -316,7 +329,8 @@ func invalidations() []invalidation {
 		k.Keys = append(k.Keys, KeyEnt{Key: "ABS_X", Note: "60"})
 		return true
 	})
-	for _, n := range []string{"h3", "e#3", "b#2", "c9", "c-3", "g#8", "128", "-1", "c", "3", "c3x", "cc3", ""} {
+	for _, n := range []string{"h3", "e#3", "b#2", "c9", "c-3", "g#8", "128", "-1", "c", "3", "c3x", "cc3", "",
+		"0177", "0200", "0x3c", "0X10", "0b11", "0o17", "1_0", "6e1", "60.0", " 60", "60 ", "60,", ",1"} {
 		n := n
 		if n == "3" {
 			continue // a plain number is a valid note
@@ -338,6 +352,17 @@ func invalidations() []invalidation {
 				return false
 			}
 			k.Keys = append(k.Keys, KeyEnt{Key: "KEY_P", Note: "60", Offset: ip(o)})
+			return true
+		})
+	}
+	for _, o := range []string{"016", "017", "020", "0x1", "0b1", "0o7", "0_1", "1e0", "1.0", " 1", "+1x"} {
+		o := o
+		add(fmt.Sprintf("key channel offset spelled %q", o), func(d *Desc) bool {
+			k := firstKeys(d)
+			if k == nil {
+				return false
+			}
+			k.Keys = append(k.Keys, KeyEnt{Key: "KEY_P", Note: "60", Offset: ip(0), OffStr: o})
 			return true
 		})
 	}
